@@ -605,16 +605,28 @@ func genC08(g *G) {
 		emit := func(self int, sq []string) {
 			g.Emit("rerun", "ecdsa", itoa(self), joinOr(sq, "|"), probes, holders)
 		}
+		type trip struct {
+			self   int
+			s1, s2 string
+		}
+		cands := []trip{}
 		for self := 0; self < 3; self++ {
 			for _, s1 := range subsAll {
 				for _, s2 := range subsAll {
-					if s1 != s2 {
-						emit(self, []string{s1, s2})
+					if s1 != s2 && (g.Thorough() || strings.Contains(s1, itoa(self))) { // quick: the first run takes part
+						cands = append(cands, trip{self, s1, s2})
 					}
 				}
 			}
 		}
-		for i := 0; i < g.Count(8, 150); i++ {
+		for len(cands) > g.Count(16, 1<<30) { // quick: a random 16 of the 27 (the index-moving pair is also a corpus line)
+			j := g.Intn(len(cands))
+			cands = append(cands[:j], cands[j+1:]...)
+		}
+		for _, c := range cands {
+			emit(c.self, []string{c.s1, c.s2})
+		}
+		for i := 0; i < g.Count(4, 150); i++ {
 			emit(g.Intn(3), []string{g.Pick(subsAll), g.Pick(subsAll), g.Pick(subsAll)})
 		}
 		for i := 0; i < g.Count(12, 300); i++ {
@@ -623,6 +635,45 @@ func genC08(g *G) {
 				sq = append(sq, g.Pick(subsAll))
 			}
 			g.Emit("rerun", "frost", itoa(g.Intn(3)), joinOr(sq, "|"), probes, holders)
+		}
+	}
+	// processes constructed one after another on ONE long-lived store object; refreshes that are attempted and abandoned
+	for _, kind := range []string{"frost", "ecdsa"} {
+		for _, steps := range []string{"s;g", "s;r2;s;g", "g;r2;g;s", "r2;s", "r3;r2;g;s;g", "s;g;r2;s;g;r3;g;s"} {
+			g.Emit("storelife", kind, itoa(g.Intn(3)), steps)
+		}
+		for i := 0; i < g.Count(6, 200); i++ {
+			st := []string{}
+			for j := 0; j < 2+g.Intn(5); j++ {
+				st = append(st, g.Pick([]string{"s", "g", "r2", "r3", "r1", "s", "g"}))
+			}
+			g.Emit("storelife", kind, itoa(g.Intn(3)), joinOr(append(st, "s"), ";"))
+		}
+	}
+	// the real coordinator collecting ready answers: every sequence of answers of the two other holders up to length 3 (4 for
+	// FROST and in the thorough tier), repeats included, committee threshold 1 and 2
+	var answers func(pre []string, depth int, f func([]string))
+	answers = func(pre []string, depth int, f func([]string)) {
+		if len(pre) > 0 {
+			f(pre)
+		}
+		if depth == 0 {
+			return
+		}
+		for _, x := range []string{"1", "2"} {
+			answers(append(append([]string{}, pre...), x), depth-1, f)
+		}
+	}
+	for _, kind := range []string{"ecdsa", "frost"} {
+		for _, thr := range []string{"1", "2"} {
+			depth := 3
+			if kind == "frost" || g.Thorough() {
+				depth = 4
+			}
+			if thr == "1" {
+				depth = 2
+			}
+			answers(nil, depth, func(sq []string) { g.Emit("initready", kind, thr, joinOr(sq, ",")) })
 		}
 	}
 	genC08Runs(g)
